@@ -35,6 +35,7 @@ SkipLine ==
      \/ (T.ev = "InRet" /\ ~T.ok /\ T.id <= rd /\ lines[T.id].cls = "X")      \* its Own line was the ReadIn step
      \/ (T.ev = "DoRet" /\ T.act = 2)
      \/ (T.ev = "DoRet" /\ T.id = 0 /\ T.act = 0)
+     \/ (T.ev = "DoRet" /\ T.id = 0 /\ T.act = 1 /\ \E p \in Procs : pr[p].pc \in {"spawned", "out"} /\ IsParent(pr[p].ev))   \* Spawn's own time-out
   /\ Consume /\ UNCHANGED vars
 
 T_Own      == Ev_("Own") /\ rd + 1 = T.id /\ lines[T.id].cls # "R" /\ ReadIn /\ Consume
@@ -79,7 +80,7 @@ Logged == T_Reset \/ T_Spawn \/ T_Own \/ T_Refused \/ T_DoRet \/ T_SendCall \/ T
 Silent ==
   /\ l <= Len(Trace)
   /\ UNCHANGED l
-  /\ \/ \E p \in Procs : JoinPop(p) \/ Attach(p) \/ InstantGet(p) \/ BlockGet(p) \/ TimeoutInject(p) \/ Flush(p) \/ Out(p)
+  /\ \/ \E p \in Procs : JoinPop(p) \/ Attach(p) \/ InstantGet(p) \/ BlockGet(p) \/ TimeoutInject(p) \/ Flush(p) \/ Out(p) \/ SpawnFlush(p)
      \/ \E b \in UsedBatchers :
           \/ FlushTimer(b)
           \/ \E k \in Workers : \/ WorkerTake(b, k) \/ CommitTurn(b, k) \/ CommitDone(b, k)
